@@ -15,8 +15,8 @@
 (***************************************************************************)
 EXTENDS GlmQuat, TLC
 CONSTANT N
-VARIABLES ph, orient, probe, tri
-vars == <<ph, orient, probe, tri>>
+VARIABLES ph, grp, orient, probe, tri
+vars == <<ph, grp, orient, probe, tri>>
 
 \* ---------------------------------------------------------------- the enumerated quaternions <<w, x, y, z, n>>
 Rg == (0 - N)..N
@@ -24,9 +24,9 @@ Enumerated == {t \in Rg \X Rg \X Rg \X Rg \X (1..N) : t[1] * t[1] + t[2] * t[2] 
 \* near-axis ones are given as rationals directly (their integers exceed 32 bits): position p holds (1-t^2)/(1+t^2), position s holds 2t/(1+t^2)
 NearKs == {1, 12, 30}
 NearSpecs == {<<k, p, s, sg>> : k \in NearKs, p \in 1..4, s \in 1..4, sg \in {1, -1}}
-NearQ(sp) == LET k == sp[1] t2 == QFromD(DPow2(-2 * k)) den == QAdd(QOne, t2)
-                 big == QDiv(QSub(QOne, t2), den) sm == QDiv(QFromD(DPow2(1 - k)), den)
-             IN [i \in 1..4 |-> IF i = sp[2] THEN QMulInt(big, sp[4]) ELSE IF i = sp[3] THEN sm ELSE QZero]
+\* all four components over the one denominator 4^k + 1 (sums of unreduced rationals stay on the equal-denominator path)
+NearQ(sp) == LET k == sp[1] den == NAdd(NShl(<<1>>, 2 * k), <<1>>) big == NSub(NShl(<<1>>, 2 * k), <<1>>) sm == NShl(<<1>>, k + 1)
+             IN [i \in 1..4 |-> IF i = sp[2] THEN QMk(ZMk(sp[4] < 0, big), den) ELSE IF i = sp[3] THEN QMk(ZMk(FALSE, sm), den) ELSE QMk(ZMk(FALSE, << >>), den)]
 TupleQ(t) == << QF(t[1], t[5]), QF(t[2], t[5]), QF(t[3], t[5]), QF(t[4], t[5]) >>
 Probes == Enumerated \cup {sp \in NearSpecs : sp[2] # sp[3]}
 ProbeQ(p) == IF Len(p) = 5 THEN TupleQ(p) ELSE NearQ(p)
@@ -39,62 +39,72 @@ HMul(p, q) == << (p[1] * q[1] - p[2] * q[2] - p[3] * q[3] - p[4] * q[4]) \div 2,
 HQ(o) == << QF(o[1], 2), QF(o[2], 2), QF(o[3], 2), QF(o[4], 2) >>
 
 \* ---------------------------------------------------------------- rational angles <<cos, sin>>
-Tiny == LET t2 == QFromD(DPow2(-24)) den == QAdd(QOne, t2) IN << QDiv(QSub(QOne, t2), den), QDiv(QFromD(DPow2(-11)), den) >>   \* t = 2^-12
+Tiny == LET den == NAdd(NShl(<<1>>, 24), <<1>>) IN << QMk(ZMk(FALSE, NSub(NShl(<<1>>, 24), <<1>>)), den), QMk(ZMk(FALSE, NShl(<<1>>, 13)), den) >>   \* t = 2^-12
 Angles == << <<QF(3, 5), QF(4, 5)>>, <<QF(5, 13), QF(-12, 13)>>, <<QF(-4, 5), QF(3, 5)>>, <<QZero, QOne>>, <<QOne, QZero>>, <<QZero, QI(-1)>>,
              <<QI(-1), QZero>>, Tiny, << Tiny[2], Tiny[1] >>, << Tiny[2], QNeg(Tiny[1]) >> >>      \* the last two: +-90 degrees -+ 2^-11
 NA == Len(Angles)
 AnglesOK == \A i \in 1..NA : CsOnCircle(Angles[i])
 
-VBoxI == { <<1, 0, 0>>, <<0, 1, 0>>, <<0, 0, 1>>, <<1, 2, 3>>, <<-3, 1, 2>>, <<100, -7, 3>> }
+VBoxI == { <<1, 0, 0>>, <<1, 2, 3>>, <<100, -7, 3>> }
+DualTs == { <<0, 0, 0>>, <<-3, 1, 2>> }
 VQ(v) == << QI(v[1]), QI(v[2]), QI(v[3]) >>
 UnitVs == { <<1, 0, 0, 1>>, <<0, 1, 0, 1>>, <<0, 0, 1, 1>>, <<1, 2, 2, 3>>, <<2, 3, 6, 7>>, <<-1, 4, -8, 9>>, <<0, -3, 4, 5>>, <<2, -2, 1, 3>>, <<4, 0, 3, 5>>, <<3, 4, 0, 5>> }
 UQ(u) == << QF(u[1], u[4]), QF(u[2], u[4]), QF(u[3], u[4]) >>
 
-Init == ph = "quat" /\ orient = HId /\ probe \in Probes /\ tri = <<1, 1, 1>>
-Turn == ph = "quat" /\ \E g \in Gens : orient' = HMul(orient, g) /\ UNCHANGED <<ph, probe, tri>>
-ToEuler == ph = "quat" /\ orient = HId /\ probe = <<1, 0, 0, 0, 1>> /\ ph' = "euler" /\ tri' \in (1..NA) \X (1..NA) \X (1..NA) /\ UNCHANGED <<orient, probe>>
-Next == Turn \/ ToEuler
+\* The machine.  "pick" states only fan the work out over the TLC workers (16 groups); from a picked probe the orientation walks
+\* through the Hurwitz group (orient' = orient * generator: 24 orientations per probe); from a picked angle triple nothing moves.
+NG == 16
+GrpOf(p) == IF Len(p) = 5 THEN (p[1] + 2 * p[2] + 3 * p[3] + 5 * p[4] + 7 * p[5] + 64 * N) % NG ELSE (p[1] + 3 * p[2] + 5 * p[3] + p[4] + 1) % NG
+P1 == <<1, 0, 0, 0, 1>>
+Init == ph = "pick" /\ grp \in 0..(NG - 1) /\ orient = HId /\ probe = P1 /\ tri = <<1, 1, 1>>
+PickQ == ph = "pick" /\ ph' = "quat" /\ probe' \in {p \in Probes : GrpOf(p) = grp} /\ UNCHANGED <<grp, orient, tri>>
+PickE == ph = "pick" /\ ph' = "euler" /\ tri' \in {t \in (1..NA) \X (1..NA) \X (1..NA) : (t[1] + 3 * t[2] + 7 * t[3]) % NG = grp} /\ UNCHANGED <<grp, orient, probe>>
+Turn == ph = "quat" /\ \E g \in Gens : orient' = HMul(orient, g) /\ UNCHANGED <<ph, grp, probe, tri>>
+Next == PickQ \/ PickE \/ Turn
 Spec == Init /\ [][Next]_vars
 
 \* ---------------------------------------------------------------- invariants (the laws of the property, exact)
-Q0 == ProbeQ(probe)
-M0 == QuatToMat3(Q0)
 InQuat == ph = "quat"
+AtProbe == ph = "quat" /\ orient = HId                     \* laws about the probe alone are evaluated once per probe
 \* GLM's operator*(qua, vec3): v + 2 (w (u x v) + u x (u x v)), the two-cross-product form
 GlmQV(q, v) == LET u == QVec(q) uv == VCross(u, v) uuv == VCross(u, uv) IN VAdd(v, VScale(VAdd(VScale(uv, q[1]), uuv), QI(2)))
 
-InvUnit == InQuat => AllEq(QuatMul(Q0, QuatConj(Q0)), QId) /\ AllEq(QuatMul(QuatConj(Q0), Q0), QId)
-InvInverse == InQuat => AllEq(QuatInv(Q0), QuatConj(Q0)) /\ AllEq(QuatMul(Q0, QuatInv(Q0)), QId)
-           /\ AllEq(QuatInv(VScale(Q0, QI(3))), VScale(QuatConj(Q0), QF(1, 3)))
-InvRotation == InQuat => IsRotation(M0) /\ MEq(QuatToMat3H(VScale(Q0, QF(-7, 2))), M0) /\ MEq(QuatToMat3(VNeg(Q0)), M0)
-InvMatHom == InQuat => LET o == HQ(orient) IN MEq(QuatToMat3(QuatMul(o, Q0)), MMul(QuatToMat3(o), M0))
-                                          /\ MEq(QuatToMat3(QuatMul(Q0, o)), MMul(M0, QuatToMat3(o)))
-InvRotate == InQuat => \A v \in VBoxI : AllEq(QuatRotate(Q0, VQ(v)), MVec(M0, VQ(v))) /\ AllEq(GlmQV(Q0, VQ(v)), MVec(M0, VQ(v)))
-                                        /\ AllEq(QuatRotate(QuatConj(Q0), VQ(v)), VMat(VQ(v), M0))
-InvCast == InQuat => (QuatCastRel(M0, Q0) \/ QuatCastRel(M0, VNeg(Q0))) /\ ~(QuatCastRel(M0, Q0) /\ QuatCastRel(M0, VNeg(Q0)))
-InvBetween == InQuat => \A u \in UnitVs : QIsZero(VDot(QVec(Q0), UQ(u))) =>
-                           LET r == IF QSign(Q0[1]) < 0 THEN VNeg(Q0) ELSE Q0 IN RotBetweenRel(UQ(u), MVec(M0, UQ(u)), r)
-InvDual == InQuat => \A t \in VBoxI : LET d == DQMake(Q0, VQ(t)) m == DQMat3x4(d[1], d[2]) IN
+\* matrix of a product = product of the matrices (both orders), for every orientation x probe
+InvMatHom == InQuat => LET q == ProbeQ(probe) m == QuatToMat3(q) o == HQ(orient) mo == QuatToMat3(o) IN
+                 /\ MEq(QuatToMat3(QuatMul(o, q)), MMul(mo, m)) /\ MEq(QuatToMat3(QuatMul(q, o)), MMul(m, mo))
+                 /\ QEq(QuatNorm2(QuatMul(o, q)), QOne)
+InvProbe == AtProbe => LET q == ProbeQ(probe) m == QuatToMat3(q) cj == QuatConj(q) IN
+    /\ AllEq(QuatMul(q, cj), QId) /\ AllEq(QuatMul(cj, q), QId)                                   \* q q* = |q|^2 = 1
+    /\ AllEq(QuatInv(q), cj) /\ AllEq(QuatMul(q, QuatInv(q)), QId)                               \* conjugate = inverse, q q^-1 = 1
+    /\ AllEq(QuatInv(VScale(q, QI(3))), VScale(cj, QF(1, 3)))
+    /\ IsRotation(m) /\ MEq(QuatToMat3H(VScale(q, QF(-7, 2))), m) /\ MEq(QuatToMat3(VNeg(q)), m)   \* orthonormal, det 1, q and -q same rotation
+    /\ \A v \in VBoxI : LET mv == MVec(m, VQ(v)) IN AllEq(QuatRotate(q, VQ(v)), mv) /\ AllEq(GlmQV(q, VQ(v)), mv)
+                                                /\ AllEq(QuatRotate(cj, VQ(v)), VMat(VQ(v), m))    \* q v q* = M v;  v * q = M^T v
+    /\ (QuatCastRel(m, q) \/ QuatCastRel(m, VNeg(q))) /\ ~(QuatCastRel(m, q) /\ QuatCastRel(m, VNeg(q)))   \* quat_cast model returns q or -q
+    /\ \A u \in UnitVs : QIsZero(VDot(QVec(q), UQ(u))) =>
+           LET r == IF QSign(q[1]) < 0 THEN VNeg(q) ELSE q IN RotBetweenRel(UQ(u), MVec(m, UQ(u)), r)
+InvDual == AtProbe => LET q == ProbeQ(probe) m == QuatToMat3(q) IN \A t \in DualTs : LET d == DQMake(q, VQ(t)) m34 == DQMat3x4(d[1], d[2]) IN
                /\ AllEq(DQTrans(d[1], d[2]), VQ(t))
-               /\ \A v \in {<<1, 2, 3>>, <<0, 0, 0>>} : AllEq(DQApply(d[1], d[2], VQ(v)), VAdd(MVec(M0, VQ(v)), VQ(t)))
-               /\ \A k \in 1..3 : QEq(MAt(m, k, 4), VQ(t)[k]) /\ \A c \in 1..3 : QEq(MAt(m, k, c), MAt(M0, c, k))
-\* axis-angle (only on the first few probes: it does not depend on the probe)
-InvAngleAxis == (InQuat /\ orient = HId /\ probe = <<1, 0, 0, 0, 1>>) =>
-                   \A i \in 1..NA : \A u \in UnitVs : LET h == Angles[i] f == Dbl(h) q == AngleAxisQ(h, UQ(u)) IN
-                       /\ MEq(QuatToMat3(q), RotAxis3(f[1], f[2], UQ(u))) /\ QEq(QuatNorm2(q), QOne)
-                       /\ \A w \in VBoxI : AllEq(MVec(RotAxis3(f[1], f[2], UQ(u)), VQ(w)), QuatRotate(q, VQ(w)))
+               /\ AllEq(DQApply(d[1], d[2], VQ(<<1, 2, 3>>)), VAdd(MVec(m, VQ(<<1, 2, 3>>)), VQ(t)))
+               /\ \A k \in 1..3 : QEq(MAt(m34, k, 4), VQ(t)[k]) /\ \A c \in 1..3 : QEq(MAt(m34, k, c), MAt(m, c, k))
+\* axis-angle (does not depend on the probe: evaluated on the first one)
+InvAngleAxis == (AtProbe /\ probe = P1) =>
+                   \A i \in 1..NA : \A u \in UnitVs : LET h == Angles[i] f == Dbl(h) q == AngleAxisQ(h, UQ(u)) ra == RotAxis3(f[1], f[2], UQ(u)) IN
+                       /\ MEq(QuatToMat3(q), ra) /\ QEq(QuatNorm2(q), QOne)
+                       /\ AllEq(MVec(ra, VQ(<<1, 2, 3>>)), QuatRotate(q, VQ(<<1, 2, 3>>)))
 
 TriP == << Angles[tri[1]], Angles[tri[2]], Angles[tri[3]] >>
 InEuler == ph = "euler"
-InvEuler3 == InEuler => \A nm \in EulerNames3 : IsRotation(EulerMat(nm, TriP))
-InvEuler2 == InEuler => \A nm \in EulerNames2 : IsRotation(EulerMat(nm, << TriP[1], TriP[2] >>))
-                                              /\ MEq(EulerMat(nm, << TriP[1], TriP[2] >>), MMul(AxisRot(EulerAxes(nm)[1], TriP[1]), AxisRot(EulerAxes(nm)[2], TriP[2])))
-InvEuler1 == InEuler => /\ MEq(RotX(TriP[1][1], TriP[1][2]), RotAxis3(TriP[1][1], TriP[1][2], <<QOne, QZero, QZero>>))
-                        /\ MEq(RotY(TriP[2][1], TriP[2][2]), RotAxis3(TriP[2][1], TriP[2][2], <<QZero, QOne, QZero>>))
-                        /\ MEq(RotZ(TriP[3][1], TriP[3][2]), RotAxis3(TriP[3][1], TriP[3][2], <<QZero, QZero, QOne>>))
-                        /\ MEq(YawPitchRollMat(TriP), MMul(RotY(TriP[1][1], TriP[1][2]), MMul(RotX(TriP[2][1], TriP[2][2]), RotZ(TriP[3][1], TriP[3][2]))))
+InvEuler3 == InEuler => LET p == TriP IN \A nm \in EulerNames3 : IsRotation(EulerMat(nm, p))
+InvEuler2 == InEuler => LET p == TriP IN \A nm \in EulerNames2 : LET e == EulerMat(nm, << p[1], p[2] >>) IN
+                            IsRotation(e) /\ MEq(e, MMul(AxisRot(EulerAxes(nm)[1], p[1]), AxisRot(EulerAxes(nm)[2], p[2])))
+InvEuler1 == InEuler => LET p == TriP IN
+                        /\ MEq(RotX(p[1][1], p[1][2]), RotAxis3(p[1][1], p[1][2], <<QOne, QZero, QZero>>))
+                        /\ MEq(RotY(p[2][1], p[2][2]), RotAxis3(p[2][1], p[2][2], <<QZero, QOne, QZero>>))
+                        /\ MEq(RotZ(p[3][1], p[3][2]), RotAxis3(p[3][1], p[3][2], <<QZero, QZero, QOne>>))
+                        /\ MEq(YawPitchRollMat(p), MMul(RotY(p[1][1], p[1][2]), MMul(RotX(p[2][1], p[2][2]), RotZ(p[3][1], p[3][2]))))
 \* qua(vec3 euler) (half angles = the triple) is the quaternion of Rz(roll) Ry(yaw) Rx(pitch), and pitch/yaw/roll read the angles back
-InvEulerQuat == InEuler => LET q == EulerQuat(TriP[1], TriP[2], TriP[3]) p == Dbl(TriP[1]) y == Dbl(TriP[2]) r == Dbl(TriP[3]) IN
+InvEulerQuat == InEuler => LET t == TriP q == EulerQuat(t[1], t[2], t[3]) p == Dbl(t[1]) y == Dbl(t[2]) r == Dbl(t[3]) IN
                    /\ QEq(QuatNorm2(q), QOne)
                    /\ MEq(QuatToMat3(q), EulerMat("ZYX", << r, y, p >>))
                    /\ QEq(YawSin(q), y[2])
